@@ -358,13 +358,24 @@ func main() {
 			case src == "if req.Close || resp.Close { return errPayloadAfterFinalResponse }":
 				rsteps = append(rsteps, "closeTest")
 			case strings.HasPrefix(src, "if resp.StatusCode >= ") && strings.HasSuffix(src, " { break }"):
+				// last statement of the loop body: a final response leaves the inner loop, an interim one goes round
 				cond := st.(*ast.IfStmt).Cond.(*ast.BinaryExpr)
 				v, ok := p.EvalInt(cond.Y)
-				if !ok || cond.Op != token.GEQ {
+				if !ok || cond.Op != token.GEQ || st != inner.Body.List[len(inner.Body.List)-1] {
 					return fmt.Errorf("serverForwardResponses: final test %s", src)
 				}
 				l.NatDef("finalStatus", v, "a response with StatusCode >= this is final")
 				rsteps = append(rsteps, "finalTest")
+			case strings.HasPrefix(src, "if resp.StatusCode < ") && strings.HasSuffix(src, " { continue }"):
+				// an interim response goes round; what follows applies to final responses only and must end in `break`
+				cond := st.(*ast.IfStmt).Cond.(*ast.BinaryExpr)
+				v, ok := p.EvalInt(cond.Y)
+				if !ok || cond.Op != token.LSS || p.Src(inner.Body.List[len(inner.Body.List)-1]) != "break" {
+					return fmt.Errorf("serverForwardResponses: final test %s", src)
+				}
+				l.NatDef("finalStatus", v, "a response with StatusCode >= this is final")
+				rsteps = append(rsteps, "finalTest")
+			case src == "break" && st == inner.Body.List[len(inner.Body.List)-1]:
 			default:
 				return fmt.Errorf("serverForwardResponses: unrecognised statement: %s", src)
 			}
